@@ -1,12 +1,12 @@
 (** Property C04 — the Kemeny score a consensus reports is the true score of each returned ranking.
-    Status: proved for each way a score is produced except one — the score computed on demand by the
+    Status: proved for each way a score is produced — the score computed on demand by the
     Consensus object is the definition (C01's main theorem), the solver objective of the exact algorithm is
     the score of the decoded ranking (C05's formulation theorem), PickAPerm's reported minimum is the score
     of every ranking it returns, the true score is never negative (so the [-1.] sentinel is never a score),
-    the definitional cost table sums to the score.  PARTIAL for BioConsert's bookkeeping (initial score +
-    accumulated deltas): judged per run only.  Judged per run in Coq for every algorithm and both values of
+    the definitional cost table sums to the score, BioConsert's bookkeeping (initial score + accumulated
+    deltas) is the true score of the vector it returns ([C04_bioconsert_bookkeeping]).  Judged per run in Coq for every algorithm and both values of
     return_at_most_one_ranking: reported score present, equal to [kemeny_spec] of EVERY returned ranking. *)
-From Corankco Require Import Prelude Scheme SchemeProof Rank KemenySpec CostTable CostTableProof Borda PickAPerm PickAPermProof KemenyImpl KemenyCount OptTheory PartitionProof ILP ILPProof.
+From Corankco Require Import Prelude Scheme SchemeProof Rank KemenySpec CostTable CostTableProof Borda PickAPerm PickAPermProof KemenyImpl KemenyCount OptTheory PartitionProof ILP ILPProof Markov BioConsert Judge.JBio BioMoves BioLoop BioAlgo.
 Local Open Scope Z_scope.
 
 Theorem C04_score_nonneg : forall s D c, nonneg s -> 0 <= kemeny_spec s D c.
@@ -47,3 +47,18 @@ Proof.
   exact (proj2 (decode_score (cost_spec s D) n P v (cost_spec_mirror' s D Hv) F)).
 Qed.
 Print Assumptions C04_solver_objective.
+
+(** BioConsert: the score recorded for a departure (initial score + accumulated deltas) is the score of the vector
+    the local search returns, and the reported score is the score of every returned vector *)
+Theorem C04_bioconsert_bookkeeping : forall fuel one s D deps sc rs,
+  valid s ->
+  let U := universe D in let n := length U in let K := cost_table s D in
+  (0 < n)%nat -> deps <> [] -> Forall (fun d => exists m, DenseTo n d m) deps ->
+  bioconsert_on fuel one s D deps = Some (sc, rs) ->
+  forall c, In c rs -> exists v m, c = decode_vec U v /\ DenseTo n v m /\ score_vec K n v = sc.
+Proof.
+  intros fuel one s D deps sc rs Hv U n K Hn Hne HDs E c Hc.
+  destruct (bioconsert_on_spec fuel one s D deps sc rs Hv Hn Hne HDs E) as (_ & _ & _ & H).
+  destruct (H c Hc) as (v & m & E1 & E2 & E3 & _). exists v, m. split; [exact E1|]. split; [exact E2|exact E3].
+Qed.
+Print Assumptions C04_bioconsert_bookkeeping.
